@@ -34,14 +34,14 @@ PROPS = {
     "C11": dict(targets=["Properties_C11.vo"], families=[("term", 0.5), ("term_modes", 1.0), ("term_wild", 0.2), ("screen", 0.3)], codes=[1101]),
     "C13": dict(targets=["Properties_C13.vo"], families=OUTPUT_FAMILIES, codes=[1301]),
     "C16": dict(targets=["Properties_C16.vo"], families=[("canvas", 1.0), ("canvas_alias", 0.5)], codes=[], extra="c16"),
-    "C15": dict(targets=["Properties_C15.vo"], families=[("values", 1.0), ("show", 0.3)], codes=[], extra="c15"),
-    "C17": dict(targets=["Properties_C17.vo"], families=[("term", 1.0), ("term_wild", 0.3), ("strings", 0.7)], codes=[1701], extra="c17"),
+    "C15": dict(targets=["Properties_C15.vo"], families=[("values", 1.0), ("show", 0.3), ("strobj", 0.2)], codes=[], extra="c15"),
+    "C17": dict(targets=["Properties_C17.vo"], families=[("term", 1.0), ("term_wild", 0.3), ("strings", 0.7), ("strobj", 0.7)], codes=[1701], extra="c17"),
     "C05": dict(targets=["Properties_C05.vo"], families=[("items", 1.0), ("garbage", 0.3), ("keyseq", 0.3)], codes=[], extra="c05", expand=True),
     "C06": dict(targets=["Properties_C06.vo"], families=[("chunks", 1.0), ("items", 0.3)], codes=[], extra="c06", expand=True),
     "C07": dict(targets=["Properties_C07.vo"], families=[("garbage", 1.0), ("chunks", 0.5), ("markup_wild", 1.0)], codes=[], extra="c07", expand=True),
     "C20": dict(targets=["Properties_C20.vo"], families=[("chunks", 1.0), ("keyseq", 0.5), ("items", 0.5), ("garbage", 0.5)], codes=[], extra="c20", expand=True),
     "C10": dict(targets=["Properties_C10.vo"], families=[("markup", 1.0), ("markup_respell", 0.5), ("markup_plain", 0.2), ("markup_wild", 0.3)], codes=[], extra="c10"),
-    "C12": dict(targets=["Properties_C12.vo"], families=[("canvas_alias", 0.5)], codes=[], special="c12", extra="c16"),
+    "C12": dict(targets=["Properties_C12.vo"], families=[("canvas_alias", 0.5), ("strobj", 0.3)], codes=[], special="c12", extra="c16s"),
     "C14": dict(targets=["Properties_C14.vo"], families=[], codes=[], special="c14"),
     "C18": dict(targets=["Properties_C18.vo"], families=[("charset_sweep", 1.0), ("term", 0.5)], codes=[101, 102], extra="c18"),
     "C19": dict(targets=["Properties_C19.vo"], families=[("term", 0.5), ("show_sweep", 1.0), ("show", 0.5)], codes=[102], extra="c19"),
@@ -89,6 +89,8 @@ def gen_family(family, seed, n):
             lines += gen.gen_strings_case(r, cid)
         elif family == "show":
             lines += gen.gen_show_case(r, cid)
+        elif family == "strobj":
+            lines += gen.gen_strobj_case(r, cid)
         elif family == "show_sweep":
             return gen.gen_show_sweep()
         elif family == "parser_enum":
@@ -292,7 +294,15 @@ def oracle_show(impl_lines):
 
 
 def oracle_c15s(impl_lines):
-    return oracle_c15(impl_lines) + oracle_show(impl_lines)
+    return oracle_c15(impl_lines) + oracle_show(impl_lines) + oracle_strobj(impl_lines)
+
+
+def oracle_c17s(impl_lines):
+    return oracle_c17(impl_lines) + oracle_strobj(impl_lines)
+
+
+def oracle_c16s(impl_lines):
+    return oracle_c16(impl_lines) + oracle_strobj(impl_lines)
 
 
 def parse_cb(line):
@@ -493,6 +503,125 @@ def wire_text(nums):
     return bytes(out).hex() if out else "-"
 
 
+def glyph_bytes(nums):
+    """the text of one element (16 ints): its glyph's bytes, None if not well-formed UTF-8"""
+    cs, b0, b1, b2 = nums[:4]
+    if cs != 18:
+        return [b0]
+    if b0 < 0x80 and b1 == 0 and b2 == 0:
+        return [b0]
+    if 0xC2 <= b0 <= 0xDF and 0x80 <= b1 <= 0xBF and b2 == 0:
+        return [b0, b1]
+    if 0xE0 <= b0 <= 0xEF and 0x80 <= b1 <= 0xBF and 0x80 <= b2 <= 0xBF:
+        return [b0, b1, b2]
+    return None
+
+
+def oracle_strobj(impl_lines):
+    """objects of the string class against an independent mirror: after every
+    operation every string holds exactly the elements the operations put
+    there (distinct objects do not influence each other), its observers agree,
+    and to_string is the glyph bytes in order"""
+    fails = []
+    cases, order = vc.split_cases(impl_lines)
+    DEF_ATTR = [0, 9, 0, 0, 0, 9, 0, 0, 0, 0, 0, 0]
+
+    def norm(e):
+        # the unused storage bytes of a non-UTF-8 glyph are not part of its value
+        e = list(e)
+        if e[0] != 18:
+            e[2] = e[3] = 0
+        return tuple(e)
+
+    def elems(t, i, n):
+        return [norm(int(x) for x in t[i + 16 * j:i + 16 * (j + 1)]) for j in range(n)]
+
+    def ofb(hx, attr=None):
+        bs = bytes.fromhex(hx) if hx != "-" else b""
+        return [tuple([5, b, 0, 0] + (attr or DEF_ATTR)) for b in bs]
+
+    for cid in order:
+        st = {}
+        pend, got, zs, ts = None, [], None, None
+
+        def finish():
+            if pend is None:
+                return
+            want = st.get(pend)
+            if want is None:
+                return
+            if zs is None or zs != (len(want), 1 if not want else 0):
+                fails.append((cid, "string %s: size()/empty() report %s, expected %d elements" % (pend, zs, len(want))))
+            elif [norm(g) for g in got] != want:
+                k = next((i for i in range(max(len(got), len(want))) if i >= len(got) or i >= len(want) or norm(got[i]) != want[i]), 0)
+                fails.append((cid, "string %s: element %d is %s, the operations performed put %s there" % (
+                    pend, k, got[k] if k < len(got) else "<missing>", want[k] if k < len(want) else "<nothing>")))
+            else:
+                gb = [glyph_bytes(e) for e in want]
+                if all(g is not None for g in gb):
+                    text = bytes(b for g in gb for b in g).hex() or "-"
+                    if ts != text:
+                        fails.append((cid, "string %s: to_string gives %s, the glyph bytes in order are %s" % (pend, ts, text)))
+
+        for l in cases[cid] + ["> END"]:
+            if l.startswith("> "):
+                finish()
+                pend, got, zs, ts = None, [], None, None
+                t = l[2:].split()
+                if len(t) < 3 or t[0] != "Z":
+                    continue
+                k, op = t[1], t[2]
+                try:
+                    if op in ("ofbytes", "ofstd"):
+                        st[k] = ofb(t[3])
+                    elif op == "ofstdattr":
+                        st[k] = ofb(t[3], [int(x) for x in t[4:16]])
+                    elif op == "cstr":
+                        bs = bytes.fromhex(t[3]) if t[3] != "-" else b""
+                        st[k] = ofb(bs.split(b"\0")[0].hex() or "-")
+                    elif op == "fill":
+                        st[k] = elems(t, 4, 1) * int(t[3])
+                    elif op in ("range", "ilist"):
+                        st[k] = elems(t, 4, int(t[3]))
+                    elif op == "copy":
+                        st[k] = list(st[t[3]])
+                    elif op == "appendelem":
+                        st[k] = st[k] + elems(t, 3, 1)
+                    elif op == "append":
+                        st[k] = st[k] + st[t[3]]
+                    elif op == "plus":
+                        st[k] = st[t[3]] + st[t[4]]
+                    elif op == "pluselem":
+                        st[k] = st[t[3]] + elems(t, 4, 1)
+                    elif op == "insert":
+                        p0 = int(t[3]); st[k] = st[k][:p0] + elems(t, 4, 1) + st[k][p0:]
+                    elif op == "insertrange":
+                        p0 = int(t[3]); st[k] = st[k][:p0] + st[t[4]] + st[k][p0:]
+                    elif op == "erase":
+                        st[k] = []
+                    elif op == "erasefrom":
+                        st[k] = st[k][:int(t[3])]
+                    elif op == "eraserange":
+                        st[k] = st[k][:int(t[3])] + st[k][int(t[4]):]
+                    elif op == "setat":
+                        i = int(t[3]); st[k] = st[k][:i] + elems(t, 4, 1) + st[k][i + 1:]
+                    elif op == "swap":
+                        st[k], st[t[3]] = st[t[3]], st[k]
+                    elif op == "dump":
+                        pend = k
+                except (KeyError, IndexError, ValueError):
+                    pass
+            elif l.startswith("ZS ") and pend is not None:
+                a = l.split(); zs = (int(a[1]), int(a[2]))
+            elif l.startswith("E ") and pend is not None:
+                got.append([int(x) for x in l.split()[1:17]])
+            elif l.startswith("TS ") and pend is not None:
+                ts = l[3:].strip()
+            elif l.startswith("ZX "):
+                fails.append((cid, "string %s: %s" % (pend, l[3:])))
+    return fails
+
+
 def oracle_c17(impl_lines):
     """bytes -> attributed string -> to_string is the identity; to_string
     distributes over concatenation"""
@@ -555,7 +684,7 @@ def oracle_c07(impl_lines):
     return oracle_c05(impl_lines)
 
 
-EXTRA = {"c19": oracle_show, "c16": oracle_c16, "c15": oracle_c15s, "c05": oracle_c05, "c06": oracle_c06, "c20": oracle_c20, "c07": oracle_c07, "c10": oracle_c10, "c17": oracle_c17, "c18": oracle_c18}
+EXTRA = {"c19": oracle_show, "c16": oracle_c16, "c15": oracle_c15s, "c05": oracle_c05, "c06": oracle_c06, "c20": oracle_c20, "c07": oracle_c07, "c10": oracle_c10, "c17": oracle_c17s, "c16s": oracle_c16s, "c18": oracle_c18}
 
 
 def known_for(pid):
